@@ -7,13 +7,15 @@
 #include "Value.hpp"
 #include "vf.h"
 using namespace Qentem;
-typedef Value<char> V; typedef Array<V> AT; typedef String<char> ST; typedef StringView<char> SVw;
+typedef Value<char> V; typedef Array<V> AT; typedef String<char> ST; typedef StringView<char> SVw; typedef HArray<ST, V> OT;
 typedef unsigned long long u64; typedef long long i64; typedef ValueType T;
 
 // kinds are written with the numeric values of ValueType:
 //   0 Undefined  1 ValuePtr  3 Array  4 String  5 UIntLong  6 IntLong  7 Double  8 True  9 False  10 Null
 // A class of values (pre-state PRE_*, second operand SRC_*):  K kind; LEN string length; N member count with member kinds
 // E1, E2 (scalar kinds or 4 = String of one unit); for K = 1 the target is the class (TK, LEN, N, E1, E2).
+// K = 2 (Object): N members with kinds E1, E2 (additionally 20 = a member that was added and removed again, 0 = a member
+// created by v[key] and never written) under the keys K1, K2 (key ids: 0 "", 1 "a", 2 "b", 3 "ab").
 #ifndef PRE_K
 #define PRE_K 0
 #endif
@@ -31,6 +33,18 @@ typedef unsigned long long u64; typedef long long i64; typedef ValueType T;
 #endif
 #ifndef PRE_TK
 #define PRE_TK 5
+#endif
+#ifndef PRE_K1
+#define PRE_K1 1
+#endif
+#ifndef PRE_K2
+#define PRE_K2 2
+#endif
+#ifndef SRC_K1
+#define SRC_K1 1
+#endif
+#ifndef SRC_K2
+#define SRC_K2 2
 #endif
 #ifndef SRC_K
 #define SRC_K 5
@@ -50,8 +64,8 @@ typedef unsigned long long u64; typedef long long i64; typedef ValueType T;
 #ifndef SRC_TK
 #define SRC_TK 5
 #endif
-struct PreC { static const int K = PRE_K, LEN = PRE_LEN, N = PRE_N, E1 = PRE_E1, E2 = PRE_E2, TK = PRE_TK; };
-struct SrcC { static const int K = SRC_K, LEN = SRC_LEN, N = SRC_N, E1 = SRC_E1, E2 = SRC_E2, TK = SRC_TK; };
+struct PreC { static const int K = PRE_K, LEN = PRE_LEN, N = PRE_N, E1 = PRE_E1, E2 = PRE_E2, TK = PRE_TK, K1 = PRE_K1, K2 = PRE_K2; };
+struct SrcC { static const int K = SRC_K, LEN = SRC_LEN, N = SRC_N, E1 = SRC_E1, E2 = SRC_E2, TK = SRC_TK, K1 = SRC_K1, K2 = SRC_K2; };
 
 // ---- operations (OP); SEL picks the variant whenever the variant decides a kind ----
 #define OP_NONE 0
@@ -80,6 +94,10 @@ struct SrcC { static const int K = SRC_K, LEN = SRC_LEN, N = SRC_N, E1 = SRC_E1,
 #define OP_REMOVE_KEY 23   // Remove(key) in its three overloads (no effect on a non-object)
 #define OP_GET_KEY 24      // GetValue("<digit>", 1): decimal key into an array
 #define OP_AP_ELEM 25      // SEL 0: v += *v.GetValue(0) ; 1: v += move(*v.GetValue(0))   (the argument lives inside the value)
+#define OP_KEY 26          // v[key] (W 0 const char*, 1 StringView, 2 String&&, 3 const String&) / Get (W 4 ptr+len, 5 StringView), key id KA, then a write
+#define OP_INSERT 27       // Insert(StringView key KA, Value&& SRC)
+#define OP_AS_OBJ 28       // = HArray&& (W 1) | const HArray& (W 0)   (AN members "a", "b")
+#define OP_AP_OBJ 29       // += HArray&& (W 1) | const HArray& (W 0)  (AN members "a", "b")
 #ifndef OP
 #define OP OP_NONE
 #endif
@@ -95,6 +113,9 @@ struct SrcC { static const int K = SRC_K, LEN = SRC_LEN, N = SRC_N, E1 = SRC_E1,
 #ifndef IDX
 #define IDX 0
 #endif
+#ifndef KA
+#define KA 1
+#endif
 #ifndef BV
 #define BV 0
 #endif
@@ -104,6 +125,15 @@ struct SrcC { static const int K = SRC_K, LEN = SRC_LEN, N = SRC_N, E1 = SRC_E1,
 #ifndef COERCE
 #define COERCE 0
 #endif
+#ifndef EXP_T
+#define EXP_T 0
+#endif
+#ifndef EXP_BITS
+#define EXP_BITS 0ULL
+#endif
+#ifndef EXP_BOOL
+#define EXP_BOOL 0
+#endif
 
 static u64 d2b(double d) { u64 b; __builtin_memcpy(&b, &d, 8); return b; }
 static double b2d(u64 b) { double d; __builtin_memcpy(&d, &b, 8); return d; }
@@ -111,16 +141,48 @@ static float b2f(unsigned b) { float f; __builtin_memcpy(&f, &b, 4); return f; }
 
 // ---------------------------------------------------------------- the document model
 struct M;
-struct MN {               // one node seen from outside: scalar (bits), string (len, s), container (cnt) or pointer (tgt)
-    T k; u64 bits; unsigned len; char s[6]; unsigned cnt; const M *tgt;
+struct MN {               // one node seen from outside: scalar (bits), string (len, s), container (cnt members; for an object
+    T k; u64 bits; unsigned len; char s[6]; unsigned cnt; unsigned holes; const M *tgt;   // at most `holes` removed slots) or pointer (tgt)
 };
-struct M { MN n; MN e[6]; };   // a document: node + (if it is an array) its members
+struct ME { int key; MN v; };  // object member: key id + value
+struct M { MN n; MN e[6]; ME o[6]; };   // a document: node + its members (array: e[], object: o[] in insertion order)
+
+static const char *kstr(int id) { return id == 0 ? "" : (id == 1 ? "a" : (id == 2 ? "b" : "ab")); }
+static unsigned klen(int id) { return id == 0 ? 0u : (id == 3 ? 2u : 1u); }
 
 static void mn_clear(MN &n) {
-    n.k = T::Undefined; n.bits = 0; n.len = 0; n.cnt = 0; n.tgt = nullptr;
+    n.k = T::Undefined; n.bits = 0; n.len = 0; n.cnt = 0; n.holes = 0; n.tgt = nullptr;
     n.s[0] = 0; n.s[1] = 0; n.s[2] = 0; n.s[3] = 0; n.s[4] = 0; n.s[5] = 0;
 }
-static void m_clear(M &m) { mn_clear(m.n); mn_clear(m.e[0]); mn_clear(m.e[1]); mn_clear(m.e[2]); mn_clear(m.e[3]); mn_clear(m.e[4]); mn_clear(m.e[5]); }
+static void m_clear(M &m) {
+    mn_clear(m.n);
+    for (unsigned i = 0; i < 6; ++i) { mn_clear(m.e[i]); m.o[i].key = 0; mn_clear(m.o[i].v); }
+}
+static void m_to_object(M &m) { if (m.n.k != T::Object) { m_clear(m); m.n.k = T::Object; } }
+static int mo_find(const M &m, int key) {
+    for (unsigned i = 0; i < 6; ++i) if (i < m.n.cnt && m.o[i].key == key) return int(i);
+    return -1;
+}
+static MN &mo_get(M &m, int key) {             // the member under `key`, created (Undefined, at the end) when missing
+    int i = mo_find(m, key);
+    if (i < 0) { i = int(m.n.cnt); ++m.n.cnt; m.o[i].key = key; mn_clear(m.o[i].v); }
+    return m.o[i].v;
+}
+static void mo_remove(M &m, int key) {         // the member disappears, a removed slot may stay behind
+    const int i = mo_find(m, key);
+    if (i < 0) return;
+    for (unsigned j = unsigned(i); j + 1 < 6; ++j) m.o[j] = m.o[j + 1];
+    --m.n.cnt; ++m.n.holes;
+}
+static void m_copy_of(M &d, const M &src) {     // a deep copy keeps the members and drops every removed slot
+    d = src;
+    d.n.holes = 0;
+    for (unsigned i = 0; i < 6; ++i) { d.e[i].holes = 0; d.o[i].v.holes = 0; }
+}
+static MN mn_copy_of(const MN &n) { MN r = n; r.holes = 0; return r; }
+static void mo_merge(M &m, const M &src) {     // replace-or-append in the source's order
+    for (unsigned i = 0; i < 6; ++i) if (i < src.n.cnt) mo_get(m, src.o[i].key) = src.o[i].v;
+}
 static void m_to_array(M &m) { if (m.n.k != T::Array) { m_clear(m); m.n.k = T::Array; } }
 static void m_push(M &m, const MN &e) { m.e[m.n.cnt] = e; ++m.n.cnt; }
 
@@ -143,7 +205,7 @@ static void obs_node(const V &v, const MN &n0) {
     }
     const MN &n = *np; const T k = n.k;
     vf_assert(v.IsUndefined() == (k == T::Undefined), 102);
-    vf_assert(v.IsObject() == false, 103);
+    vf_assert(v.IsObject() == (k == T::Object), 103);
     vf_assert(v.IsArray() == (k == T::Array), 104);
     vf_assert(v.IsString() == (k == T::String), 105);
     vf_assert(v.IsUInt64() == (k == T::UIntLong), 106);
@@ -156,12 +218,16 @@ static void obs_node(const V &v, const MN &n0) {
     vf_assert(v.IsNumber() == isnum, 112);
     const QNumberType nt = v.GetNumberType();
     vf_assert(nt == (k == T::UIntLong ? QNumberType::Natural : (k == T::IntLong ? QNumberType::Integer : (k == T::Double ? QNumberType::Real : QNumberType::NotANumber))), 113);
-    vf_assert(v.Size() == (k == T::Array ? n.cnt : 0u), 114);
+    if (k == T::Object) {
+        vf_assert(v.Size() >= n.cnt && v.Size() <= n.cnt + n.holes, 114);      // slot count: members plus removed slots not yet dropped
+    } else {
+        vf_assert(v.Size() == (k == T::Array ? n.cnt : 0u), 114);
+    }
     vf_assert(v.Length() == (k == T::String ? n.len : 0u), 115);
     vf_assert((v.GetArray() != nullptr) == (k == T::Array), 116);
     vf_assert((v.GetString() != nullptr) == (k == T::String), 117);
-    vf_assert(v.GetObject() == nullptr, 118);
-    vf_assert(v.GetKey(0) == nullptr, 119);
+    vf_assert((v.GetObject() != nullptr) == (k == T::Object), 118);
+    if (k != T::Object) vf_assert(v.GetKey(0) == nullptr, 119);
     // string content
     const char *sp = v.StringStorage();
     const SVw sv = v.GetStringView();
@@ -221,38 +287,25 @@ static void obs_node(const V &v, const MN &n0) {
                 vf_assert(qt == QNumberType::Natural && q.Natural == 0 && gu == 0 && gi == 0 && gd == 0, 144);
                 vf_assert(hb && !bv, 145);
                 break;
-            default:   // Undefined, Array: not a number, not a boolean
+            default:   // Undefined, Array, Object: not a number, not a boolean
                 vf_assert(qt == QNumberType::NotANumber && gu == 0 && gi == 0 && gd == 0, 146);
                 vf_assert(!hb, 147);
         }
     } else if (COERCE) {
-        // a string coerces to the number it spells completely; the getters must agree with SetNumber
+        // a string coerces to the number it spells completely ("123", "-5", "1.5"), "true"/"false" to booleans; the text is
+        // concrete per query (CSTR) and the expectation comes with it (EXP_T = QNumberType, EXP_BITS, EXP_BOOL 0 none / 1 true / 2 false)
         QNumber64 q; q.Natural = 0;
         const QNumberType qt = v.SetNumber(q);
         const u64 gu = v.GetUInt64(); const i64 gi = v.GetInt64(); const u64 gd = d2b(v.GetDouble());
-        bool alldig = (n.len != 0), anydig = false; u64 hv = 0;
-        for (unsigned i = 0; i < n.len; ++i) {
-            const bool dg = (n.s[i] >= '0' && n.s[i] <= '9');
-            alldig = alldig && dg; anydig = anydig || dg;
-            hv = hv * 10 + u64(n.s[i] - '0');
-        }
-        const bool lead0 = (n.len > 1 && n.s[0] == '0');
-        if (alldig && !lead0) {
-            vf_assert(qt == QNumberType::Natural && q.Natural == hv, 150);
-            vf_assert(gu == hv && gi == i64(hv) && gd == d2b(double(hv)), 151);
-        }
-        if (!anydig) {                       // no digit at all: never a number
-            vf_assert(qt == QNumberType::NotANumber, 152);
-        }
-        if (qt == QNumberType::NotANumber) vf_assert(gu == 0 && gi == 0 && gd == 0, 154);
-        if (qt == QNumberType::Natural) vf_assert(gu == q.Natural && u64(gi) == q.Natural && gd == d2b(double(q.Natural)), 155);
-        if (qt == QNumberType::Integer) vf_assert(gu == q.Natural && gi == q.Integer && gd == d2b(double(q.Integer)), 156);
-        if (qt == QNumberType::Real) vf_assert(gd == d2b(q.Real), 157);
+        vf_assert(unsigned(qt) == EXP_T, 150);
+        if (EXP_T == 0) vf_assert(gu == 0 && gi == 0 && gd == 0, 151);
+        if (EXP_T == 2) vf_assert(q.Natural == EXP_BITS && gu == EXP_BITS && u64(gi) == EXP_BITS && gd == d2b(double(u64(EXP_BITS))), 152);
+        if (EXP_T == 3) vf_assert(u64(q.Integer) == EXP_BITS && gu == EXP_BITS && u64(gi) == EXP_BITS && gd == d2b(double(i64(EXP_BITS))), 153);
+        if (EXP_T == 1) vf_assert(d2b(q.Real) == EXP_BITS && gd == EXP_BITS && gi == i64(b2d(EXP_BITS)) && gu == u64(i64(b2d(EXP_BITS))), 154);
+        vf_assert(v.GetNumberType() == QNumberType::NotANumber && !v.IsNumber(), 155);   // the stored kind stays String
         bool bv = false; const bool hb = v.SetBool(bv);
-        const bool is_t = (n.len == 4 && n.s[0] == 't' && n.s[1] == 'r' && n.s[2] == 'u' && n.s[3] == 'e');
-        const bool is_f = (n.len == 5 && n.s[0] == 'f' && n.s[1] == 'a' && n.s[2] == 'l' && n.s[3] == 's' && n.s[4] == 'e');
-        vf_assert(hb == (is_t || is_f), 158);
-        if (hb) vf_assert(bv == is_t, 159);
+        vf_assert(hb == (EXP_BOOL != 0), 158);
+        if (hb) vf_assert(bv == (EXP_BOOL == 1), 159);
     }
 }
 
@@ -274,7 +327,7 @@ static void obs_doc(const V &v, const M &m) {
     }
     unsigned j = vf_u32();                         // any position past the end
     vf_assume(j >= cnt);
-    vf_assert(v.GetValue(SizeT(j)) == nullptr, 202);
+    if (e.n.k != T::Object) vf_assert(v.GetValue(SizeT(j)) == nullptr, 202);
     if (arr) {
         const V *f = v.First(); const V *en = v.GetArray()->End(); V *la = v.Last();   // Value::End() does not compile (Value.hpp:1277)
         if (cnt != 0) {
@@ -283,6 +336,53 @@ static void obs_doc(const V &v, const M &m) {
         } else {
             vf_assert(la == nullptr && en == f, 205);
         }
+    } else if (e.n.k == T::Object) {
+        const unsigned oc = e.n.cnt;
+        for (unsigned i = 0; i < oc; ++i) {                       // every member by key
+            const char *ks = kstr(e.o[i].key); const unsigned kl = klen(e.o[i].key);
+            V *p = v.GetValue(ks, SizeT(kl));
+            vf_assert(p == v.GetValue(SVw(ks, SizeT(kl))), 210);
+            if (e.o[i].v.k != T::Undefined) {
+                vf_assert(p != nullptr, 211);
+                if (p != nullptr) obs_node(*p, e.o[i].v);
+            } else {
+                vf_assert(p == nullptr, 212);                     // a member that was never written reads as absent
+            }
+            if (e.n.holes == 0) {                                 // positional access while no slot was removed
+                const ST *k = v.GetKey(SizeT(i));
+                vf_assert(k != nullptr && k->IsEqual(ks, SizeT(kl)), 213);
+                vf_assert(v.GetValue(SizeT(i)) == p, 214);
+                const V *sv = nullptr; SVw skey;
+                v.SetValueAndKey(SizeT(i), sv, skey);
+                vf_assert(sv == p, 215);
+                if (p != nullptr) vf_assert(skey.Length() == kl && StringUtils::IsEqual(skey.First(), ks, SizeT(kl)), 216);
+                const char *kc = nullptr; SizeT kn = 99;
+                vf_assert(v.SetKeyCharAndLength(SizeT(i), kc, kn) && kn == kl && StringUtils::IsEqual(kc, ks, SizeT(kl)), 217);
+                const V *sv2 = nullptr; const char *kc2 = nullptr; SizeT kn2 = 99;
+                v.SetValueKeyLength(SizeT(i), sv2, kc2, kn2);
+                vf_assert(sv2 == p, 218);
+                if (p != nullptr) vf_assert(kn2 == kl && StringUtils::IsEqual(kc2, ks, SizeT(kl)), 219);
+            }
+        }
+        for (int key = 0; key < 4; ++key) {                       // every other key of the universe is absent
+            if (mo_find(e, key) < 0) vf_assert(v.GetValue(kstr(key), SizeT(klen(key))) == nullptr, 220);
+        }
+        const unsigned sz = v.Size();                             // iteration: the slots in order, removed ones skipped, give the members in order
+        unsigned live = 0;
+        for (unsigned s = 0; s < 6; ++s) {
+            if (s < sz) {
+                const ST *k = v.GetKey(SizeT(s));
+                if (k != nullptr) {
+                    vf_assert(live < oc, 221);
+                    if (live < oc) vf_assert(k->IsEqual(kstr(e.o[live].key), SizeT(klen(e.o[live].key))), 222);
+                    ++live;
+                } else {
+                    vf_assert(v.GetValue(SizeT(s)) == nullptr, 223);
+                }
+            }
+        }
+        vf_assert(live == oc, 224);
+        vf_assert(v.GetKey(SizeT(sz)) == nullptr && v.GetValue(SizeT(sz)) == nullptr, 225);
     } else {
         vf_assert(v.First() == nullptr && v.Last() == nullptr, 206);
     }
@@ -318,6 +418,9 @@ template <int K, int LEN> static V *mk_leaf(Slot &slot, MN &n) {   // a scalar o
         c[3] = char(vf_u8());
         c[4] = char(vf_u8());
     }
+#ifdef CSTR
+    if (K == 4) { const char *lit = CSTR; for (unsigned i = 0; i < LEN; ++i) c[i] = lit[i]; sel = 0; }   // coercion queries: concrete text, one constructor
+#endif
     mn_clear(n);
     n.k = T(K);
     void *raw = &slot;
@@ -380,13 +483,58 @@ template <int N, int E1, int E2> static V *mk_array(Slot &slot, M &m) {   // [E1
     return new (raw) V(Memory::Move(a));
 }
 
+// one object member of kind E under key id KEY, added through the overload family chosen by BV
+template <int E, int KEY> static void add_obj_member(V &v, OT *direct, M &m) {
+    Slot s1; MN e;
+    const char *ks = kstr(KEY); const unsigned kl = klen(KEY);
+    if (E == 0) {                                   // created by a keyed read, never written
+        if (direct != nullptr) { V &r = (*direct)[ST(ks, SizeT(kl))]; (void)r; } else { V &r = v[ks]; (void)r; }
+        mo_get(m, KEY);
+        return;
+    }
+    V *x = mk_leaf<(E == 20 ? 5 : E), 1>(s1, e);
+    if (direct != nullptr) {
+        if (BV & 1) direct->Insert(ST(ks, SizeT(kl)), Memory::Move(*x)); else (*direct)[ST(ks, SizeT(kl))] = Memory::Move(*x);
+    } else {
+        if (BV & 1) v.Insert(SVw(ks, SizeT(kl)), Memory::Move(*x)); else v[ks] = Memory::Move(*x);
+    }
+    x->~V();
+    mo_get(m, KEY) = e;
+    if (E == 20) {                                  // ... and removed again
+        if (direct != nullptr) direct->Remove(ks, SizeT(kl)); else v.Remove(ks, SizeT(kl));
+        mo_remove(m, KEY);
+    }
+}
+template <int N, int E1, int E2, int K1, int K2> static V *mk_object(Slot &slot, M &m) {   // {K1: E1, K2: E2}
+    slot_fill(slot);
+    m.n.k = T::Object;
+    void *raw = &slot;
+    if (BV < 2) {
+        V *v = (BV & 1) ? new (raw) V(T::Object, SizeT(2)) : new (raw) V(T::Object);
+        if (N > 0) add_obj_member<E1, K1>(*v, nullptr, m);
+        if (N > 1) add_obj_member<E2, K2>(*v, nullptr, m);
+        return v;
+    }
+    OT o;                                           // built as a hash array, then adopted / copied
+    V dummy;
+    if (N == 0) { o.Insert(ST("a", SizeT(1)), V(1u)); o.Reset(); }   // empty, with explicitly written fields
+    if (N > 0) add_obj_member<E1, K1>(dummy, &o, m);
+    if (N > 1) add_obj_member<E2, K2>(dummy, &o, m);
+    if (BV == 2) return new (raw) V(Memory::Move(o));
+    m.n.holes = 0;                                  // a copy drops the removed slots
+    return new (raw) V((const OT &)o);
+}
+
 template <class C> static void mk(Slot &sv, Slot &st, M &m, M &tm, V *&v, V *&t) {
     m_clear(m); m_clear(tm);
     t = nullptr;
     if (C::K == 3) { v = mk_array<C::N, C::E1, C::E2>(sv, m); return; }
+    if (C::K == 2) { v = mk_object<C::N, C::E1, C::E2, C::K1, C::K2>(sv, m); return; }
     if (C::K != 1) { v = mk_leaf<C::K, C::LEN>(sv, m.n); return; }
     // pointer: the target is a document of its own
-    if (C::TK == 3) t = mk_array<C::N, C::E1, C::E2>(st, tm); else t = mk_leaf<(C::TK == 1 ? 0 : C::TK), C::LEN>(st, tm.n);
+    if (C::TK == 3) t = mk_array<C::N, C::E1, C::E2>(st, tm);
+    else if (C::TK == 2) t = mk_object<C::N, C::E1, C::E2, C::K1, C::K2>(st, tm);
+    else t = mk_leaf<(C::TK == 1 ? 0 : C::TK), C::LEN>(st, tm.n);
     slot_fill(sv);
     void *raw = &sv;
     v = new (raw) V();
@@ -438,6 +586,13 @@ static void mutate(V &c) {
         V *e = c.GetArray()->Storage();
         if (e->Type() == T::String && e->Length() > 0) e->GetString()->Storage()[0] ^= 1;
         *e = 77u;
+    }
+    if (c.Type() == T::Object && c.Size() > 0) {
+        V *e = c.GetValue(SizeT(0));
+        if (e != nullptr) {
+            if (e->Type() == T::String && e->Length() > 0) e->GetString()->Storage()[0] ^= 1;
+            *e = 77u;
+        }
     }
     c.Reset();
 }
@@ -535,19 +690,19 @@ extern "C" void h_step() {
         mk<SrcC>(ss, sst, sm, stm, src, srct);
 #if OP == OP_AS_COPY
         *v = (const V &)*src;
-        m = sm;
+        m_copy_of(m, sm);
 #elif OP == OP_AS_MOVE
         *v = Memory::Move(*src);
         m = sm;
 #elif OP == OP_AP_COPY
-        *v += (const V &)*src;
-        m_to_array(m); m_push(m, sm.n);
+        *v += (const V &)*src;                  // object += object merges (replace or append); everything else appends one member
+        if (m.n.k == T::Object && sm.n.k == T::Object) mo_merge(m, sm); else { m_to_array(m); m_push(m, mn_copy_of(sm.n)); }
 #elif OP == OP_AP_MOVE
         *v += Memory::Move(*src);
-        m_to_array(m); m_push(m, sm.n);
+        if (m.n.k == T::Object && sm.n.k == T::Object) mo_merge(m, sm); else { m_to_array(m); m_push(m, sm.n); }
 #else
-        // Merge: an Undefined destination becomes an empty array; array into array splices the defined members;
-        // every other combination leaves the destination alone
+        // Merge: an Undefined destination becomes an empty array; array into array splices the defined members; object
+        // into object replaces or appends by key; every other combination leaves the destination alone
 #if OP == OP_MERGE_COPY
         v->Merge((const V &)*src);
 #else
@@ -558,6 +713,7 @@ extern "C" void h_step() {
             for (unsigned i = 0; i < SRC_N; ++i)
                 if (sm.e[i].k != T::Undefined) m_push(m, sm.e[i]);
         }
+        if (m.n.k == T::Object && sm.n.k == T::Object) mo_merge(m, sm);
 #endif
 #if OP == OP_AS_MOVE || OP == OP_AP_MOVE || OP == OP_MERGE_MOVE
         vf_assert(src->Type() == T::Undefined, 310);          // moved-from (or merged-from) is Undefined
@@ -578,7 +734,8 @@ extern "C" void h_step() {
 #elif OP == OP_CTOR_COPY
     {
         V c(*v);
-        obs_doc(c, m);
+        M mc; m_copy_of(mc, m);
+        obs_doc(c, mc);
         obs_doc(*v, m);
         mutate(c);
     }
@@ -652,23 +809,31 @@ extern "C" void h_step() {
         const unsigned w = W;
         V *r;
         if ((w & 3) == 0) r = &((*v)[SizeT(IDX)]); else if ((w & 3) == 1) r = &((*v)[int(IDX)]); else r = &((*v)[u64(IDX)]);
-        if (!(m.n.k == T::Array && m.n.cnt > IDX)) {     // auto-vivify: becomes an array of IDX+1 members, the new ones Undefined
-            m_to_array(m);
-            m.n.cnt = IDX + 1;
-        }
-        vf_assert(r == v->GetArray()->Storage() + IDX, 330);
-        obs_node(*r, m.e[IDX]);
-        obs_doc(*v, m);
         MN a;
         unsigned w2 = vf_u8();
-        scalar_arg<3>(*r, a, false, w2);                      // write through the reference
-        m.e[IDX] = a;
+        if (m.n.k == T::Object && m.n.holes == 0 && IDX < m.n.cnt) {      // an object's live slot: that member
+            vf_assert(r == v->GetObject()->GetValue(SizeT(IDX)), 331);
+            obs_node(*r, m.o[IDX].v);
+            scalar_arg<3>(*r, a, false, w2);
+            m.o[IDX].v = a;
+        } else {
+            if (!(m.n.k == T::Array && m.n.cnt > IDX)) {     // auto-vivify: becomes an array of IDX+1 members, the new ones Undefined
+                m_to_array(m);
+                m.n.cnt = IDX + 1;
+            }
+            vf_assert(r == v->GetArray()->Storage() + IDX, 330);
+            obs_node(*r, m.e[IDX]);
+            obs_doc(*v, m);
+            scalar_arg<3>(*r, a, false, w2);                      // write through the reference
+            m.e[IDX] = a;
+        }
     }
 #elif OP == OP_REMOVE_INDEX
     {
         unsigned w = vf_u8();
         if (w & 1) v->RemoveIndex(SizeT(IDX)); else v->RemoveIndex(int(IDX));
         if (m.n.k == T::Array && IDX < m.n.cnt) mn_clear(m.e[IDX]);
+        if (m.n.k == T::Object && IDX < m.n.cnt) mo_remove(m, m.o[IDX].key);     // (queried only while the object has no removed slot)
     }
 #elif OP == OP_RESET
     {
@@ -685,16 +850,25 @@ extern "C" void h_step() {
             m = c;
             vf_assert(v->GetArray()->Capacity() == m.n.cnt, 340);   // no spare room left
         }
+        if (m.n.k == T::Object) m.n.holes = 0;                      // removed slots are dropped
     }
 #elif OP == OP_REMOVE_KEY
     {
-        unsigned w = vf_u8();
-        char c[2];
-        c[0] = char(vf_u8());
-        c[1] = 0;
-        vf_assume(w < 3 && c[0] != 0);
-        const ST key((const char *)&c[0], SizeT(1));
-        if (w == 0) v->Remove(&c[0], SizeT(1)); else if (w == 1) v->Remove(key); else v->Remove((const char *)&c[0]);
+        const char *ks = kstr(KA); const unsigned kl = klen(KA);
+        const ST key(ks, SizeT(kl));
+        // finding C12-remove-string-key: Remove(const String&) takes the key length from the value's own union storage
+        // (string_.Length()), which for an object is its slot count
+        const bool bad = (W == 1) && (m.n.k == T::Object) && (v->Size() != kl);
+#ifdef KF_ONLY_C12_remove_string_key
+        vf_assume(bad);
+#endif
+#ifdef KF_EXCL_C12_remove_string_key
+        if (!bad)
+#endif
+        {
+            if (W == 0) v->Remove(ks, SizeT(kl)); else if (W == 1) v->Remove(key); else v->Remove(ks);
+            if (m.n.k == T::Object) mo_remove(m, KA);
+        }
     }
 #elif OP == OP_GET_KEY
     {
@@ -713,6 +887,54 @@ extern "C" void h_step() {
             vf_assert(p != nullptr && p == v->GetValue(SizeT(idx)), 350);
         } else {
             vf_assert(p == nullptr, 351);
+        }
+    }
+#elif OP == OP_KEY
+    {
+        const char *ks = kstr(KA); const unsigned kl = klen(KA);
+        V *r;
+        if (W == 0) r = &((*v)[ks]);
+        else if (W == 1) r = &((*v)[SVw(ks, SizeT(kl))]);
+        else if (W == 2) r = &((*v)[ST(ks, SizeT(kl))]);
+        else if (W == 3) { const ST key(ks, SizeT(kl)); r = &((*v)[key]); }
+        else if (W == 4) r = &(v->Get(ks, SizeT(kl)));
+        else r = &(v->Get(SVw(ks, SizeT(kl))));
+        m_to_object(m);                                   // anything but an object is replaced by an empty object first
+        obs_node(*r, mo_get(m, KA));                      // the existing member, or a fresh Undefined one at the end
+        obs_doc(*v, m);
+        MN a;
+        unsigned w2 = vf_u8();
+        scalar_arg<3>(*r, a, false, w2);                  // write through the reference
+        mo_get(m, KA) = a;
+    }
+#elif OP == OP_INSERT
+    {
+        mk<SrcC>(ss, sst, sm, stm, src, srct);
+        v->Insert(SVw(kstr(KA), SizeT(klen(KA))), Memory::Move(*src));
+        m_to_object(m);
+        mo_get(m, KA) = sm.n;
+        vf_assert(src->Type() == T::Undefined, 360);
+        if (srct != nullptr) obs_doc(*srct, stm);
+    }
+#elif OP == OP_AS_OBJ || OP == OP_AP_OBJ
+    {
+        OT o; M om; Slot s1, s2; MN e;
+        m_clear(om); om.n.k = T::Object;
+        if (AN > 0) { V *x = mk_leaf<5, 1>(s1, e); o.Insert(ST("a", SizeT(1)), Memory::Move(*x)); x->~V(); mo_get(om, 1) = e; }
+        if (AN > 1) { V *x = mk_leaf<5, 1>(s2, e); o.Insert(ST("b", SizeT(1)), Memory::Move(*x)); x->~V(); mo_get(om, 2) = e; }
+        if (AN == 0) { o.Insert(ST("a", SizeT(1)), V(1u)); o.Reset(); }     // an empty hash array with explicitly written fields
+#if OP == OP_AS_OBJ
+        if (W & 1) *v = Memory::Move(o); else *v = (const OT &)o;
+        m = om;
+#else
+        if (W & 1) *v += Memory::Move(o); else *v += (const OT &)o;
+        if (m.n.k == T::Object) mo_merge(m, om); else { m_to_array(m); m_push(m, om.n); }   // merged by key, or appended as one member
+#endif
+        if (W & 1) {
+            vf_assert(o.Size() == 0 && o.Capacity() == 0, 361);
+        } else {
+            vf_assert(o.Size() == AN, 362);
+            if (AN > 0) { V *p = o.GetValue(SizeT(0)); vf_assert(p != nullptr && p->Type() == T::UIntLong, 363); *p = nullptr; }
         }
     }
 #elif OP == OP_AP_ELEM
